@@ -328,6 +328,21 @@ func (f *Func) siblingFacts(list []ast.Stmt, child ast.Node, assigned map[string
 			var as []Atom
 			if f.Terminates(is.Body) && (is.Else == nil || !f.Terminates(is.Else)) {
 				as = Decompose(is.Cond, false, is)
+				// else-if chain whose every body terminates and that has no final
+				// else: falling out of it means every condition was false
+				for cur := is; ; {
+					nx, ok := cur.Else.(*ast.IfStmt)
+					if !ok {
+						break
+					}
+					if !f.Terminates(nx.Body) {
+						break
+					}
+					if nx.Init == nil {
+						as = append(as, Decompose(nx.Cond, false, nx)...)
+					}
+					cur = nx
+				}
 			} else if is.Else != nil && f.Terminates(is.Else) && !f.Terminates(is.Body) {
 				as = Decompose(is.Cond, true, is)
 			}
